@@ -193,7 +193,7 @@ class Line(LineData, Model):
 
         self.yh.v_str = 'u * (gh + 1j * bh)'
         self.yk.v_str = 'u * (gk + 1j * bk)'
-        self.yhk.v_str = 'u/((r+1e-8) + 1j*(x+1e-8))'
+        self.yhk.v_str = '1/((r+1e-8) + 1j*(x+1e-8))'
 
         self.ghk.v_str = 're(yhk)'
         self.bhk.v_str = 'im(yhk)'
